@@ -21,5 +21,8 @@ def Ratan (x : R) : R := Real.arctan x
 def Ratan2 (y x : R) : R := Complex.arg ⟨x, y⟩
 def RofNat (n : Nat) : R := (n : ℝ)
 def Rpi : R := Real.pi
+/-- `==` on scalars -/
+def Req (a b : R) : Bool := decide (a = b)
+@[simp] theorem Req_iff (a b : R) : Req a b = true ↔ a = b := by simp [Req]
 
 end ModelR
